@@ -150,23 +150,26 @@ def _record(args):
     gen.EXCLUDE = set()
     lines = []
     for k in range(ndocs):
-        d = gen.rand_doc(rng, nmax=12)
+        # every other document has <iframe> elements WITH element content (as html.parser / the XML builder of XHTML keep it): the API
+        # walks (closest's ancestors, select's descendants, filter's children) cross that boundary like any other element
+        names = gen.NAMES + (['iframe', 'iframe'] if k % 2 else [])
+        d = gen.rand_doc(rng, nmax=12, names=names)
         container, nodes = dom.build(d, bs4)
         idmap = dom.ids_of(nodes)
         n = len(d['parent'])
         els = [i + 1 for i, kk in enumerate(d['kind']) if kk == 'e']
         for j in range(nsel):
-            ast = gen.rand_list(rng, depth=rng.choice([0, 1, 2]))
+            ast = gen.rand_list(rng, depth=rng.choice([0, 1, 2]), names=names)
             if rng.random() < 0.5:   # make :scope observable
                 ast[0]['cs'][rng.randrange(len(ast[0]['cs']))].append({'k': rng.choice(['scope', 'amp'])})
             css = selmod.selector_list(ast)
             obj = sv.compile(css)
-            for ep in ('select', 'iselect', 'select_one', 'match', 'filter', 'filter_iter', 'closest'):
+            for en, ep in enumerate(('select', 'iselect', 'select_one', 'match', 'filter', 'filter_iter', 'closest') + (('closest',) * 4 if k % 2 else ())):
                 t = rng.choice(els + ([0] if d['top'] == 'doc' else []))
                 tnode = container if t == 0 else nodes[t]
                 lim = rng.choice([0, 0, 1, 2, 3, -1])
                 items = [rng.randrange(1, n + 1) for _ in range(rng.randint(0, 5))]
-                ev = {'id': '%d.%d.%d.%s' % (seed, k, j, ep), 'doc': d, 'sel': ast, 'nsmap': [], 'ep': ep,
+                ev = {'id': '%d.%d.%d.%s%d' % (seed, k, j, ep, en), 'doc': d, 'sel': ast, 'nsmap': [], 'ep': ep,
                       'target': t, 'limit': lim, 'items': items, 'css': css}
                 try:
                     if ep == 'select':
